@@ -80,6 +80,7 @@ template<class V> static void run(const VpCase* c, VpOutcome* o) {
     const bool vec_amt = (op >= OP_SHL_V && op <= OP_SHR_VA) || op == OP_META;
     if (vec_amt) for (unsigned i = 0; i < W; ++i) bl[i] = c->v[1][i] % (B + 1);
     V b = mk<V>(bl);
+    poison_below(c->v[0][0] ^ (uint64_t)c->s[0]);
     int64_t s = c->s[0];
     bool nt = false;
     auto amt_class = [&](uint64_t k) {
